@@ -1,2 +1,85 @@
--- line-protocol driver for C14 (stub; replaced when the property is built)
-def main : IO Unit := IO.println "stub"
+import Verif.Model.SSH
+/-!
+  Line-protocol driver for C14 (SSH certificates: type, key id, principals, signer; SSH-POP).
+
+  op=sign   prov=jwk|x5c|oidc|oidcadm cau=0|1 cah=0|1 dbe=0|1 sub=x… ssh=0|1 tct=x… tkid=x… tpr=<list>
+            oem=x… ousr=<list> rct=x… rkid=x… rpr=<list> key=ok|rsasmall|dsa
+  op=renew|rekey|revoke
+            cau= cah= dren=0|1 aexp=0|1 ct=<n> kid=x… pr=<list> perms=<n> su=0|1 sh=0|1 ny=0|1 ex=0|1 hv=0|1
+            tsig= tcl= taud= tsub= tser= rev=0|1 key=ok|rsasmall|dsa
+  list = x<hex> items joined by ',' or `-` when empty.
+  Output: unauth | refuse:<status> | refuse | authorized | issue ct=<n> kid=x… pr=<list> [perms=<n>] by=user|host
+-/
+open Verif Verif.SSH
+
+namespace C14
+
+def str? (t : String) : Option Str :=
+  if t.startsWith "x" then unhex (t.drop 1).toString else none
+
+def bool? (t : String) : Option Bool :=
+  if t = "1" then some true else if t = "0" then some false else none
+
+def list? {α : Type} (f : String → Option α) (t : String) : Option (List α) :=
+  if t = "-" then some [] else (t.splitOn ",").mapM f
+
+def lookup (kv : List (String × String)) (k : String) : Option String :=
+  (kv.find? (·.1 = k)).map (·.2)
+
+def xs (a : Str) : String := "x" ++ hex a
+def listS (l : List String) : String := if l.isEmpty then "-" else ",".intercalate l
+
+def key? (t : String) : Option KeyClass :=
+  match t with
+  | "ok" => some .ok | "rsasmall" => some .rsaSmall | "dsa" => some .dsa | _ => none
+
+def prov? (t : String) : Option Prov :=
+  match t with
+  | "jwk" => some .jwk | "x5c" => some .x5c
+  | "oidc" => some (.oidc false) | "oidcadm" => some (.oidc true) | _ => none
+
+def signerS : Signer → String
+  | .userKey => "user" | .hostKey => "host"
+
+def certS (c : Cert) : String := s!"ct={c.ct} kid={xs c.keyID} pr={listS (c.principals.map xs)}"
+
+def eval (line : String) : Option String := do
+  let kv := (fields line).filterMap fun f =>
+    match f.splitOn "=" with
+    | [k, v] => some (k, v)
+    | _ => none
+  let get := fun k => lookup kv k
+  let ca : CAKeys := ⟨(← bool? (← get "cau")), (← bool? (← get "cah")), (← bool? (← get "dbe"))⟩
+  let key ← key? (← get "key")
+  match (← get "op") with
+  | "sign" =>
+    let hasSSH ← bool? (← get "ssh")
+    let topts : Opts := ⟨(← str? (← get "tct")), (← str? (← get "tkid")), (← list? str? (← get "tpr"))⟩
+    let tok : Token := ⟨(← str? (← get "sub")), if hasSSH then some topts else none⟩
+    let o : Oidc := ⟨(← str? (← get "oem")), (← list? str? (← get "ousr"))⟩
+    let req : Opts := ⟨(← str? (← get "rct")), (← str? (← get "rkid")), (← list? str? (← get "rpr"))⟩
+    match sshSign ca (← prov? (← get "prov")) tok o req key with
+    | .refused 401 => pure "unauth"
+    | .refused st => pure s!"refuse:{st}"
+    | .issued c sg => pure s!"issue {certS c} by={signerS sg}"
+  | op =>
+    let cfg : PopCfg := ⟨ca, (← bool? (← get "dren")), (← bool? (← get "aexp"))⟩
+    let c : PopCert := {
+      ct := (← (← get "ct").toNat?), keyID := (← str? (← get "kid")), principals := (← list? str? (← get "pr")),
+      perms := (← (← get "perms").toNat?), sigUser := (← bool? (← get "su")), sigHost := (← bool? (← get "sh")),
+      notYet := (← bool? (← get "ny")), expired := (← bool? (← get "ex")), hasValidity := (← bool? (← get "hv")) }
+    let t : PopTok := ⟨(← bool? (← get "tsig")), (← bool? (← get "tcl")), (← bool? (← get "taud")),
+      (← bool? (← get "tsub")), (← bool? (← get "tser"))⟩
+    let rev ← bool? (← get "rev")
+    let out := fun (r : PopRes) => match r with
+      | .refused => "refuse"
+      | .issued c p sg => s!"issue {certS c} perms={p} by={signerS sg}"
+    match op with
+    | "renew" => pure (out (popRenew cfg c t rev))
+    | "rekey" => pure (out (popRekey cfg c t rev key))
+    | "revoke" => pure (if popAuthorize cfg .revoke c t then "authorized" else "refuse")
+    | _ => none
+
+end C14
+
+def main : IO Unit := Verif.lineLoop fun l => (C14.eval l).getD "parse-error"
